@@ -505,7 +505,33 @@ def rule_expiry(P):
     return r
 
 
+def rule_union(P):
+    """struct event keeps the I/O timeout (ev_.ev_io.ev_timeout) and a signal event's call counters (ev_.ev_signal.ev_ncalls / ev_pncalls) in one union: a store to
+    the I/O member is only right where the event is known not to be a signal event"""
+    r = Rule("C02-union", "K4", "stores to the ev_io timeout member of the event union are guarded by 'not a signal event' (it overlays ev_ncalls/ev_pncalls)", floor=3)
+    for f in P.fns_in("event.c"):
+        for el, lhs, op, rhs in f.stores():
+            fl = fields_of(lhs)
+            if not (any(x.endswith("ev_io") for x in fl) and any("ev_timeout" in x for x in fl)):
+                continue
+            gs = [negate_truth(c, t) for c, t, _ in f.guards_at(el.bid)]
+            def not_signal(c, t):
+                c = strip(c)
+                has_sig = any(is_e(q, "int") and len(q) > 2 and q[2] == "EV_SIGNAL" for q in walk(c))
+                if has_sig and is_e(c, "bin") and c[1] == "&" and not t:
+                    return True
+                if is_e(c, "bin") and c[1] == "==" and any(is_e(q, "fld") and (q[2].endswith("ev_closure") or q[2].endswith("evcb_closure")) for q in walk(c)) and any(is_e(q, "int") and len(q) > 2 and q[2] == "EV_CLOSURE_EVENT_PERSIST" for q in walk(c)) and t:
+                    return True
+                return False
+            ok = any(not_signal(c, t) for c, t in gs)
+            r.inst((f.name, el.n), {"fn": f.name, "site": el.where(), "store": show(el.e)[:70], "guarded_not_signal": ok})
+            if not ok:
+                r.bad("K4:%s:io-timeout-store-on-signal-event" % f.name, el.where(), f.name,
+                      "`%s` writes the I/O timeout member of the event union without having established that the event is not a signal event: for a signal event these bytes are ev_ncalls/ev_pncalls — the deliveries still to be reported are dropped" % show(el.e)[:60])
+    return r
+
+
 def run(ctx, config):
     P = ctx.prog(UNITS, config)
     Pall = ctx.prog(None, config)
-    return [rule_machine(P, config), rule_who(Pall), rule_pending(P), rule_bittest(Pall), rule_expiry(P)]
+    return [rule_machine(P, config), rule_who(Pall), rule_pending(P), rule_bittest(Pall), rule_expiry(P), rule_union(P)]
